@@ -97,7 +97,7 @@ func judge(sh *shared, o *observation) {
 	// O7: once nothing writes any more, what the daemon answers is what is on disk — the record
 	// and the real stdout file — (and by O6 stays so across a further restart)
 	if o.Disk != nil && o.Final.Listed && (o.Final.State != o.Disk.State || o.Final.Size != o.Disk.Size || o.Final.Detail != o.Disk.Detail ||
-		(complete(o.Disk.State) && o.Disk.State == 2 && int64(o.DiskOut) != o.Final.Size)) {
+		(o.Kind == "local" && o.Disk.State == 2 && int64(o.DiskOut) != o.Final.Size)) {
 		viol("report-differs-from-record", fmt.Sprintf("unit %s: the daemon answers state %d %q size %d while the record on disk says state %d %q size %d and stdout holds %d bytes (nothing is writing any more)",
 			o.Unit, o.Final.State, o.Final.Detail, o.Final.Size, o.Disk.State, o.Disk.Detail, o.Disk.Size, o.DiskOut))
 		return
